@@ -37,8 +37,10 @@ from placement import util                              # noqa: E402
 
 
 class Placement(object):
-    def __init__(self, randomize=False):
+    def __init__(self, randomize=False, policy_rules=None):
         self.randomize = randomize
+        self.policy_rules = policy_rules
+        self._tmp = None
 
     def __enter__(self):
         self.cf = config_fixture.Config(cfg.ConfigOpts())
@@ -48,9 +50,16 @@ class Placement(object):
         self.db = placement_fixtures.Database(self.cf, set_config=True)
         self.db.setUp()
         self.cf.conf([], default_config_files=[])
-        self.cf.config(
-            group='oslo_policy',
-            policy_file=paths.state_path_def('etc/placement/policy.yaml'))
+        pf = paths.state_path_def('etc/placement/policy.yaml')
+        if self.policy_rules:
+            import tempfile
+            self._tmp = tempfile.NamedTemporaryFile(
+                'w', suffix='.yaml', delete=False)
+            for k, v in self.policy_rules.items():
+                self._tmp.write('"%s": "%s"\n' % (k, v))
+            self._tmp.close()
+            pf = self._tmp.name
+        self.cf.config(group='oslo_policy', policy_file=pf)
         if self.randomize:
             self.cf.config(group='placement',
                            randomize_allocation_candidates=True)
@@ -70,6 +79,8 @@ class Placement(object):
         return self
 
     def __exit__(self, *a):
+        if self._tmp is not None:
+            os.unlink(self._tmp.name)
         policy.reset()
         self.db.cleanUp()
         self.cf.cleanUp()
